@@ -105,7 +105,7 @@ class LG:
             "decoy_after", "decoy_prevline", "decoy_nextline", "oneline_def_lambda", "in_list", "in_dict", "multiline_body", "semicolon", "comment_lines", "kwarg_after",
             "trailing_comma", "chain_multibody", "nested_call_arg", "cond_expr", "backslash", "comprehension", "where_single", "where_chain", "lambda_own_line_chain",
             "decoy_default_arg", "string_noise_line", "def_by_name", "def_by_name_docstring", "lambda_var", "three_chain_args",
-            "cond_lambda_arg", "cond_lambda_arg", "cond_lambda_two_calls", "cond_lambda_two_calls", "list_lambda_arg", "or_lambda_arg", "dict_lambda_arg", "wrapped_lambda_arg",
+            "def_nested_by_name", "kwarg_lambda", "cond_lambda_arg", "cond_lambda_arg", "cond_lambda_two_calls", "cond_lambda_two_calls", "list_lambda_arg", "or_lambda_arg", "dict_lambda_arg", "wrapped_lambda_arg",
         ])
         p = self.pname()
         B = lambda **kw: self.body(p, **kw)  # noqa
@@ -225,6 +225,13 @@ class LG:
         if t == "wrapped_lambda_arg":
             (b1, f), (b2, _) = B(), B()
             return t, False, True, f"r = ds.Select(keep(lambda {p}: {b1}, lambda {p}: {b2}))", f
+        if t == "def_nested_by_name":
+            self.k += 1
+            m = self.k
+            return t, True, True, f"def sel({p}): return ({p}.n{m}, {p}.f{m}({m}))\n{{IND}}def other({p}): return {p}.decoy{m}\n{{IND}}r = ds.Select(sel)", "attr"
+        if t == "kwarg_lambda":
+            b, f = B()
+            return t, False, False, f"r = ds.Select(f=lambda {p}: {b})", f
         if t == "def_by_name":
             return t, True, False, "@DEFNAME", "attr"
         if t == "def_by_name_docstring":
